@@ -351,6 +351,54 @@ Dispatch(S, x, outcome, delay, t) ==
                                          !.expiresAt = t + delay, !.completedOn = None]]
 
 (***************************************************************************)
+(* Search.  Ids are matched against a pattern in which "*" stands for any  *)
+(* (possibly empty) run of characters; idc maps an id to its sequence of   *)
+(* characters and a.qc is the pattern as a sequence (TLC has no substring  *)
+(* operations on strings).  Newest first, at most a.limit per page, a      *)
+(* cursor (the last id of the page) exactly when the page is full.         *)
+(* An overdue pending hit is first timed out (its own step) and the search *)
+(* is taken again, so a reply never reports an overdue promise as pending. *)
+(***************************************************************************)
+RECURSIVE Glob(_, _)
+Glob(p, s) ==
+  IF p = <<>> THEN s = <<>>
+  ELSE IF Head(p) = "*" THEN \E k \in 0..Len(s) : Glob(Tail(p), SubSeq(s, k + 1, Len(s)))
+  ELSE s # <<>> /\ Head(s) = Head(p) /\ Glob(Tail(p), Tail(s))
+
+TagsSubset(want, have) == \A k \in DOMAIN want : k \in DOMAIN have /\ have[k] = want[k]
+
+PromiseMatches(S, a, idc, id) ==
+  /\ Has(idc, id) /\ Glob(a.qc, idc[id])
+  /\ S.promises[id].state \in Range(a.states)
+  /\ TagsSubset(a.tags, S.promises[id].tags)
+PromiseMatchSet(S, a, idc) == {id \in DOMAIN S.promises : PromiseMatches(S, a, idc, id)}
+
+ScheduleMatches(S, a, idc, id) ==
+  Has(idc, id) /\ Glob(a.qc, idc[id]) /\ TagsSubset(a.tags, S.schedules[id].tags)
+
+\* -1: the cursor names a row that no longer exists (a deleted schedule)
+CursorStart(order, cursor) ==
+  IF IsNone(cursor) THEN Len(order)
+  ELSE IF The(cursor) \in Range(order) THEN Pos(order, The(cursor)) - 1 ELSE -1
+
+SearchPromisesIds(S, a, idc) ==
+  LET keep(id) == PromiseMatches(S, a, idc, id)
+  IN NewestFirst(S.porder, CursorStart(S.porder, a.cursor), keep, a.limit)
+
+SearchPromisesRes(S, a, idc) ==
+  LET ids == SearchPromisesIds(S, a, idc) IN
+  [status |-> OK, promises |-> [i \in DOMAIN ids |-> PBody(S, ids[i])],
+   cursor |-> IF Len(ids) = a.limit THEN Some(ids[Len(ids)]) ELSE None]
+
+\* the hits of the page that are overdue at clock t (they are timed out before the reply)
+SearchOverdueHits(S, a, idc, t) ==
+  {id \in Range(SearchPromisesIds(S, a, idc)) : Overdue(S, id, t)}
+
+SearchSchedulesIds(S, a, idc) ==
+  LET keep(id) == ScheduleMatches(S, a, idc, id)
+  IN NewestFirst(S.sorder, CursorStart(S.sorder, a.cursor), keep, a.limit)
+
+(***************************************************************************)
 (* Dispatcher used by level B and by the trace specification.              *)
 (***************************************************************************)
 Op(kind, S, a, t) ==
